@@ -11,6 +11,7 @@
 package c15
 
 import (
+	"bytes"
 	"encoding/json"
 	"fmt"
 	"io/ioutil"
@@ -44,9 +45,10 @@ var Check = &run.Check{
 	ID:    "C15",
 	Level: "exploration",
 	Rule: "case = synthesised commit list (0-30 commits with >= 1 change each, 1-8 authors, <= 15 created files, create/modify/delete/re-create of a deleted path, rename chains <= 4 per file " +
-		"printed in git's own notation: `dir/{a => b}`, `{a => b}/f`, `dir/{ => sub}/f`, `dir/{sub => }/f`, full-path `a => b` (root <-> directory, other directory + new name), renames back to an earlier name; " +
+		"printed in git's own notation: `dir/{a => b}`, `{a => b}/f`, `dir/{ => sub}/f`, `dir/{sub => }/f`, full-path `a => b` (root <-> directory, other directory + new name), for half of the root <-> directory moves the brace form with an empty prefix `{ => d}/f`, `{d => }/f`, renames back to an earlier name; " +
+		"in a third of the histories two authors differ only in letter case; " +
 		"non-decreasing dates with many ties; conventional and free subjects; order of changes inside a commit shuffled); every 4th case goes through rendered log text + BuildMessageByInput; " +
-		"observed = GetTeamSummary, CalculateCodeAge, GetTopAuthors, BasicSummary, BuildChangeMap in-process; every Nth case instead a real repository (gen/gitgen) with `coca git -b|-t|-a|-o|-m` tables " +
+		"observed = GetTeamSummary, CalculateCodeAge, GetTopAuthors, BasicSummary, BuildChangeMap in-process, each on its own deep copy, then ShowChangeLogSummary + BuildChangeMap followed by the four summaries on ONE shared list (results must equal the fresh-copy results); every Nth case instead a real repository (gen/gitgen) with `coca git -b|-t|-a|-o|-m` tables " +
 		"judged against the fold of coca_reporter/commits.json; non-trivial = >= 4 commits, >= 2 authors, >= 1 rename and >= 1 deletion; distinct = hash of the op/notation/author-index/date-step structure (no names)",
 	Assumptions: []string{
 		"inside one commit a path is touched once, rename sources exist and are not otherwise touched, rename/creation targets do not exist before the commit (the only shapes git prints), so nothing depends on the order of changes inside a commit",
@@ -55,7 +57,9 @@ var Check = &run.Check{
 		"top authors: only the per-author numbers and their sum are asserted, not the order of the list",
 		"basic summary: Commits and Authors exact; Entities exact on rename-free histories, otherwise only bounded by [distinct creation paths, distinct path strings]; the 'Changes' figure is not in the statement",
 		"changelog map: 'file' = the path the commit leaves the file at (new name for a rename); types are lower-case words, `type(scope)?: text`",
-		"CLI: one flag per run (with several flags cmd/git.go re-renders one growing table; table layout is not part of the statement); code-age months are wall-clock dependent, only names and order are judged; `-m` prints at most 10 files per type, which ones is free",
+		"author names are compared byte-wise, as git prints them (`Bob` and `bob` are two authors)",
+		"`{ => d}/f` / `{d => }/f` (empty common prefix, one empty side) is not printed by git 2.39 for a root <-> directory move (it prints `f => d/f`); it is synthesised as decoder input in its evident reading only",
+		"CLI: one flag per run, plus one invocation with -m -b -t -a -o whose re-rendered growing table is split into the rows each render adds (if that layout is not found nothing is judged; table layout is not part of the statement); code-age months are wall-clock dependent, only names and order are judged; `-m` prints at most 10 files per type, which ones is free",
 	},
 	Cases: cases,
 	Floor: func(tier string) int {
@@ -142,6 +146,9 @@ func runCase(c *run.Ctx, o *run.Outcome) {
 	o.Count("renames_out_of_subdir_{sub => }", st.OutOfSub)
 	o.Count("renames_full_path", st.FullPath)
 	o.Count("renames_back_to_earlier_name", st.RenameBack)
+	o.Count("renames_root_into_dir_brace_{ => d}/f", st.RootIntoDirBrace)
+	o.Count("renames_dir_to_root_brace_{d => }/f", st.DirToRootBrace)
+	o.Count("histories_with_authors_differing_only_in_case", st.TwinAuthors)
 	o.Count("deletes", st.Deletes)
 	o.Count("recreations", st.Recreates)
 	o.Count(fmt.Sprintf("histories_with_max_chain_%d", st.MaxChain), 1)
@@ -191,7 +198,7 @@ func checkInProcess(o *run.Outcome, msgs []cocagit.CommitMessage, exp *oracle.Gi
 		}
 	}
 	var team []cocagit.TeamSummary
-	if guard("GetTeamSummary", func() { team = cocagit.GetTeamSummary(msgs) }) {
+	if guard("GetTeamSummary", func() { team = cocagit.GetTeamSummary(deepCopy(msgs)) }) {
 		var rows []oracle.GitTeamRow
 		for _, t := range team {
 			rows = append(rows, oracle.GitTeamRow{Name: t.EntityName, Authors: t.AuthorCount, Revs: t.RevsCount})
@@ -202,7 +209,7 @@ func checkInProcess(o *run.Outcome, msgs []cocagit.CommitMessage, exp *oracle.Gi
 		report(exp.CheckTeam(rows), "GetTeamSummary")
 	}
 	var ages []cocagit.ProjectInfo
-	if guard("CalculateCodeAge", func() { ages = cocagit.CalculateCodeAge(msgs) }) {
+	if guard("CalculateCodeAge", func() { ages = cocagit.CalculateCodeAge(deepCopy(msgs)) }) {
 		var rows []oracle.GitAgeRow
 		for _, a := range ages {
 			rows = append(rows, oracle.GitAgeRow{Name: a.EntityName, Date: a.Age.Format("2006-01-02")})
@@ -212,7 +219,7 @@ func checkInProcess(o *run.Outcome, msgs []cocagit.CommitMessage, exp *oracle.Gi
 		report(exp.CheckAge(rows), "CalculateCodeAge")
 	}
 	var tops []cocagit.TopAuthor
-	if guard("GetTopAuthors", func() { tops = cocagit.GetTopAuthors(msgs) }) {
+	if guard("GetTopAuthors", func() { tops = cocagit.GetTopAuthors(deepCopy(msgs)) }) {
 		var rows []oracle.GitTopRow
 		for _, t := range tops {
 			rows = append(rows, oracle.GitTopRow{Name: t.Name, Commits: t.CommitCount, Lines: t.LineCount})
@@ -222,7 +229,7 @@ func checkInProcess(o *run.Outcome, msgs []cocagit.CommitMessage, exp *oracle.Gi
 		report(exp.CheckTop(rows), "GetTopAuthors")
 	}
 	var basic *cocagit.GitSummary
-	if guard("BasicSummary", func() { basic = cocagit.BasicSummary(msgs) }) && basic != nil {
+	if guard("BasicSummary", func() { basic = cocagit.BasicSummary(deepCopy(msgs)) }) && basic != nil {
 		witness["basic"] = basic
 		if exp.RenameFree {
 			o.Count("basic_rename_free_histories", 1)
@@ -230,7 +237,7 @@ func checkInProcess(o *run.Outcome, msgs []cocagit.CommitMessage, exp *oracle.Gi
 		report(exp.CheckBasic(basic.Commits, basic.Entities, basic.Authors), "BasicSummary")
 	}
 	var cm map[string]map[string]int
-	if guard("BuildChangeMap", func() { cm = cocagit.BuildChangeMap(msgs) }) {
+	if guard("BuildChangeMap", func() { cm = cocagit.BuildChangeMap(deepCopy(msgs)) }) {
 		witness["change_map"] = cm
 		n := 0
 		for _, m := range cm {
@@ -239,6 +246,87 @@ func checkInProcess(o *run.Outcome, msgs []cocagit.CommitMessage, exp *oracle.Gi
 		o.Count("change_map_cells_observed", n)
 		report(exp.CheckChangeMap(cm), "BuildChangeMap")
 	}
+
+	// One list, several summaries, as `coca git -m -b -t -a -o` computes them in one process: the changelog first, then
+	// the other summaries ON THE SAME LIST. Every summary is a function of the parsed history, so each result must be
+	// what the same function returns on a fresh deep copy (computed above).
+	if len(o.Violations) > 0 {
+		return
+	}
+	shared := deepCopy(msgs)
+	var buf bytes.Buffer
+	var team2 []cocagit.TeamSummary
+	var ages2 []cocagit.ProjectInfo
+	var tops2 []cocagit.TopAuthor
+	var basic2 *cocagit.GitSummary
+	var cm2 map[string]map[string]int
+	if !guard("changelog-then-summaries on one list", func() {
+		cocagit.ShowChangeLogSummary(shared, &buf)
+		cm2 = cocagit.BuildChangeMap(shared)
+		basic2 = cocagit.BasicSummary(shared)
+		team2 = cocagit.GetTeamSummary(shared)
+		ages2 = cocagit.CalculateCodeAge(shared)
+		tops2 = cocagit.GetTopAuthors(shared)
+	}) {
+		return
+	}
+	o.Count("sequences_on_one_list", 1)
+	differs := func(table, fresh, after string) {
+		if fresh != after {
+			o.Violate("sequence/"+table+"-after-changelog-differs-from-fresh-copy", "%s computed on the list that ShowChangeLogSummary/BuildChangeMap had just processed: %s; on a fresh copy of the same list: %s", table, clip(after, 500), clip(fresh, 500))
+		}
+	}
+	differs("change-map", fmt.Sprint(cm), fmt.Sprint(cm2)) // fmt prints maps with sorted keys
+	if basic != nil && basic2 != nil {
+		differs("basic-summary", fmt.Sprintf("commits=%d paths=%d authors=%d", basic.Commits, basic.Entities, basic.Authors), fmt.Sprintf("commits=%d paths=%d authors=%d", basic2.Commits, basic2.Entities, basic2.Authors))
+	}
+	differs("team-summary", canonTeam(team), canonTeam(team2))
+	differs("code-age", canonAge(ages), canonAge(ages2))
+	differs("top-authors", canonTop(tops), canonTop(tops2))
+	if printed, err := parseChangelog(buf.String()); err != nil {
+		o.Violate("changelog-unreadable", "ShowChangeLogSummary: %v", err)
+	} else {
+		o.Count("changelog_blocks_printed", len(printed))
+		report(exp.CheckChangeMapTop(printed, 10), "ShowChangeLogSummary")
+	}
+}
+
+func deepCopy(ms []cocagit.CommitMessage) []cocagit.CommitMessage {
+	out := make([]cocagit.CommitMessage, len(ms))
+	for i, m := range ms {
+		out[i] = m
+		out[i].Changes = append([]cocagit.FileChange(nil), m.Changes...)
+	}
+	return out
+}
+
+func sortedJoin(rows []string) string {
+	sort.Strings(rows)
+	return strings.Join(rows, "; ")
+}
+
+func canonTeam(ts []cocagit.TeamSummary) string {
+	var rows []string
+	for _, t := range ts {
+		rows = append(rows, fmt.Sprintf("%q authors=%d revs=%d", t.EntityName, t.AuthorCount, t.RevsCount))
+	}
+	return sortedJoin(rows)
+}
+
+func canonAge(as []cocagit.ProjectInfo) string {
+	var rows []string
+	for _, a := range as {
+		rows = append(rows, fmt.Sprintf("%q %s", a.EntityName, a.Age.Format("2006-01-02")))
+	}
+	return sortedJoin(rows)
+}
+
+func canonTop(ts []cocagit.TopAuthor) string {
+	var rows []string
+	for _, t := range ts {
+		rows = append(rows, fmt.Sprintf("%q commits=%d lines=%d", t.Name, t.CommitCount, t.LineCount))
+	}
+	return sortedJoin(rows)
 }
 
 // ---------------------------------------------------------------------------------------------------------------
@@ -353,8 +441,78 @@ func runCLI(c *run.Ctx, o *run.Outcome) {
 			report(exp.CheckChangeMapTop(got, 10), "`coca git -m`")
 		}
 	}
+	checkCombined(c, o, repo, exp, replayable, witness)
 	if c.Index < 64*cliEvery(c.Tier) {
 		o.Sample = map[string]interface{}{"cli": true, "commits_json": parsed, "team_table": clip(outT, 1500)}
+	}
+}
+
+// checkCombined runs ONE invocation with all flags. cmd/git.go then prints the changelog first and re-renders one
+// growing table after each flag: render k repeats the rows of render k-1 and appends its own. The rows each render
+// adds are judged like the single-flag tables (expectation: fold of commits.json, written before anything else runs).
+// If the output does not have that layout nothing is judged (layout is not part of the statement).
+func checkCombined(c *run.Ctx, o *run.Outcome, repo string, exp *oracle.GitExpect, replayable bool, witness map[string]interface{}) {
+	res := common.RunCLI(c.CocaBin, repo, gitgen.Env(repo), "git", "-m", "-b", "-t", "-a", "-o")
+	if res.TimedOut {
+		return
+	}
+	if res.ExitCode != 0 || strings.Contains(res.Stderr, "panic:") || strings.Contains(res.Stderr, "fatal error") {
+		o.Violate("cli-combined/crash", "`coca git -m -b -t -a -o` exit %d: %s", res.ExitCode, head(res.Stderr+" "+res.Stdout))
+		return
+	}
+	witness["stdout-m-b-t-a-o"] = clip(res.Stdout, 8000)
+	renders := parseRenders(res.Stdout)
+	ok := len(renders) == 4
+	for i := 1; ok && i < 4; i++ {
+		ok = len(renders[i]) >= len(renders[i-1])
+	}
+	if !ok {
+		o.Count("cli_combined_layout_not_recognised", 1)
+		return
+	}
+	o.Count("cli_combined_invocations_judged", 1)
+	report := func(ms []oracle.GitMismatch, what string) {
+		for _, m := range ms {
+			o.Violate("cli-combined/"+m.Sig, "%s (one invocation `coca git -m -b -t -a -o`): %s", what, m.Msg)
+		}
+	}
+	cells := func(rows [][]string, n int) bool {
+		for _, r := range rows {
+			if len(r) != n {
+				return false
+			}
+		}
+		return true
+	}
+	basicRows, teamRows, ageRows, topRows := renders[0], renders[1][len(renders[0]):], renders[2][len(renders[1]):], renders[3][len(renders[2]):]
+	if !cells(basicRows, 2) || !cells(teamRows, 3) || !cells(ageRows, 2) || !cells(topRows, 3) {
+		o.Count("cli_combined_layout_not_recognised", 1)
+		return
+	}
+	v := map[string]int{}
+	for _, r := range basicRows {
+		v[r[0]] = atoi(r[1])
+	}
+	report(exp.CheckBasic(v["Commits"], v["Entities"], v["Authors"]), "basic rows")
+	if replayable {
+		var tr []oracle.GitTeamRow
+		for _, r := range teamRows {
+			tr = append(tr, oracle.GitTeamRow{Name: r[0], Revs: atoi(r[1]), Authors: atoi(r[2])})
+		}
+		report(exp.CheckTeam(tr), "team rows")
+		var ar []oracle.GitAgeRow
+		for _, r := range ageRows {
+			ar = append(ar, oracle.GitAgeRow{Name: r[0], Date: exp.FirstDate(r[0])})
+		}
+		report(exp.CheckAge(ar), "code-age rows")
+	}
+	var top []oracle.GitTopRow
+	for _, r := range topRows {
+		top = append(top, oracle.GitTopRow{Name: r[0], Commits: atoi(r[1]), Lines: atoi(r[2])})
+	}
+	report(exp.CheckTop(top), "top-author rows")
+	if got, err := parseChangelog(res.Stdout); err == nil {
+		report(exp.CheckChangeMapTop(got, 10), "changelog blocks")
 	}
 }
 
